@@ -63,8 +63,10 @@ def isReceipt : Req → Bool
   | .receipt .. => true
   | _ => false
 
+/-- a join that would take a member out of the session: to another session by id, or to a new one -/
 def joinsOther (xid : Nat) : Req → Bool
   | .join _ _ (.id n) => n != xid
+  | .join _ _ .new => true
   | _ => false
 
 /-- the histories the theorem speaks about (relative to the run from `srv`) -/
@@ -227,5 +229,247 @@ theorem member_request (cfg : Cfg) {srv : Server} (h : srv.WF) {x : Session} (hx
     · rw [(Session.leave_frame cfg _ p.pid).1]; exact hsm.1
   | ok => exact ⟨hx', rfl, hsm.1, ha'⟩
   | panic site => exact ⟨hx', rfl, hsm.1, ha'⟩
+
+
+/-- a departure sends the leaver itself nothing -/
+theorem leave_not_to_leaver (cfg : Cfg) {y : Session} (hm : y.MembersOK) {q : Part} (hq : q ∈ y.parts) :
+    ∀ d ∈ (y.leave cfg q.pid).2, d.1 ≠ q.conn := by
+  intro d hd
+  rw [Props.C06.leave_deliveries] at hd
+  have other : ∀ r ∈ y.parts, r.pid ≠ q.pid → r.conn ≠ q.conn := by
+    intro r hr hne hc
+    exact hne (by rw [inj_of_nodup_map (·.conn) hm.conns_nodup hr hq hc])
+  rcases List.mem_append.mp hd with hd | hd
+  · obtain ⟨eid, _, hd⟩ := List.mem_flatMap.mp hd
+    unfold Hagall.gate at hd
+    split at hd
+    · cases hd
+    · obtain ⟨_, r, hr, hne, hdr⟩ := Session.mem_bcast hd
+      rw [hdr]; exact other r hr hne
+  · unfold Hagall.gate at hd
+    split at hd
+    · cases hd
+    · obtain ⟨r, hr, rfl⟩ := List.mem_map.mp hd
+      have := List.mem_filter.mp hr
+      exact other r this.1 (by simpa using this.2)
+
+theorem filter_all {α : Type} (p : α → Bool) (l : List α) (h : ∀ a ∈ l, p a = true) : l.filter p = l :=
+  List.filter_eq_self.mpr h
+
+theorem filter_none {α : Type} (p : α → Bool) (l : List α) (h : ∀ a ∈ l, p a = false) : l.filter p = [] := by
+  apply List.filter_eq_nil_iff.mpr
+  intro a ha; rw [h a ha]; simp
+
+/-- a connection that is not in the session joins it by its id, wherever it comes from: the session gains it as a new
+    participant, and what the members (the newcomer included) are sent is the join's deliveries -/
+theorem join_x (cfg : Cfg) {srv : Server} (h : srv.WF) {x : Session} (hx : x ∈ srv.sessions) (c rid ots hint : Nat)
+    (hc : c ∉ x.parts.map (·.conn)) :
+    (x.addPart c).1 ∈ (stepReq cfg srv ⟨c, .join rid ots (.id x.id), hint⟩).1.sessions ∧
+    seen (stepReq cfg srv ⟨c, .join rid ots (.id x.id), hint⟩).1 x.id (stepReq cfg srv ⟨c, .join rid ots (.id x.id), hint⟩).2 =
+      joinDeliveries cfg (x.addPart c).1 (x.addPart c).2 rid ots := by
+  have hxid : (x.addPart c).1.id = x.id := rfl
+  -- joining from a server in which x is registered and c is in no session
+  have fresh : ∀ (s0 : Server), s0.WF → x ∈ s0.sessions →
+      s0.joinFresh cfg c rid ots (.id x.id) hint = (s0.setSession (x.addPart c).1, joinDeliveries cfg (x.addPart c).1 (x.addPart c).2 rid ots, .ok) := by
+    intro s0 h0 hx0
+    unfold Server.joinFresh
+    simp only [Props.C07.findSession_of_mem h0.ids_nodup hx0]
+  have seenJoin : ∀ (s' : Server), s'.WF → (x.addPart c).1 ∈ s'.sessions →
+      seen s' x.id (joinDeliveries cfg (x.addPart c).1 (x.addPart c).2 rid ots) = joinDeliveries cfg (x.addPart c).1 (x.addPart c).2 rid ots := by
+    intro s' hw' hx'
+    unfold seen
+    have := members_of_mem hw' hx'
+    rw [hxid] at this
+    rw [this]
+    apply filter_all
+    intro d hd
+    have ht := joinDeliveries_tgt cfg (x.addPart c).1 (x.addPart c).2 rid ots d hd
+    have hin : d.1 ∈ (x.addPart c).1.parts.map (·.conn) := by
+      rcases List.mem_cons.mp ht with e | m
+      · rw [e]; simp [Session.addPart]
+      · exact m
+    simpa using hin
+  unfold stepReq
+  simp only [Server.handleReq]
+  unfold Server.join
+  cases hl : srv.locate c with
+  | none =>
+    simp only [fresh srv h hx]
+    have hw' : (srv.setSession (x.addPart c).1).WF := by
+      have := Server.handleReq_WF cfg h c (.join rid ots (.id x.id)) hint
+      simp only [Server.handleReq, Server.join, hl, fresh srv h hx] at this
+      exact this
+    have hx' := mem_setSession_self (srv := srv) hx hxid
+    exact ⟨hx', seenJoin _ hw' hx'⟩
+  | some yq =>
+    obtain ⟨y, q⟩ := yq
+    obtain ⟨hy, hq, hqc⟩ := Server.locate_some hl
+    have hne : x.id ≠ y.id := by
+      intro e
+      have : x = y := id_inj h.ids_nodup hx hy e
+      subst this
+      exact hc (List.mem_map.mpr ⟨q, hq, hqc⟩)
+    have h1 : (JoinTarget.id x.id == JoinTarget.id y.id) = false := by
+      simp; exact hne
+    have h2 : srv.resolves (.id x.id) = true := by
+      simp [Server.resolves, Props.C07.findSession_of_mem h.ids_nodup hx]
+    simp only [h1, h2, Bool.false_eq_true, if_false, Bool.not_true]
+    have hfr := leave_frame_other cfg h hy hx hne (p := q)
+    have hw1 := Server.leave_WF cfg h hy (p := q)
+    simp only [fresh _ hw1 hfr.1]
+    have hw' : ((srv.leave cfg y q).1.setSession (x.addPart c).1).WF := by
+      have := Server.handleReq_WF cfg h c (.join rid ots (.id x.id)) hint
+      simp only [Server.handleReq, Server.join, hl, h1, h2, Bool.false_eq_true, if_false, Bool.not_true, fresh _ hw1 hfr.1] at this
+      exact this
+    have hx' := mem_setSession_self (srv := (srv.leave cfg y q).1) hfr.1 hxid
+    refine ⟨hx', ?_⟩
+    unfold seen
+    rw [List.filter_append]
+    have hmem := members_of_mem hw' hx'
+    rw [hxid] at hmem
+    have hnone : ((srv.leave cfg y q).2.filter fun d => (members ((srv.leave cfg y q).1.setSession (x.addPart c).1) x.id).contains d.1) = [] := by
+      apply filter_none
+      intro d hd
+      rw [hmem]
+      have hnx := hfr.2 d hd
+      have hnc : d.1 ≠ c := by
+        have hds : (srv.leave cfg y q).2 = (y.leave cfg q.pid).2 := by
+          unfold Server.leave; simp only []; split <;> rfl
+        rw [hds] at hd
+        rw [← hqc]; exact leave_not_to_leaver cfg (h.members y hy) hq d hd
+      simp only [Session.addPart, List.map_append, List.map_cons, List.map_nil, List.contains_eq_mem, List.mem_append,
+        List.mem_singleton, decide_eq_false_iff_not, not_or]
+      exact ⟨hnx, hnc⟩
+    rw [hnone, List.nil_append]
+    exact seenJoin _ hw' hx'
+
+
+/-- what any admissible request of a member does to its session and whom it reaches -/
+def memberAll (cfg : Cfg) (x : Session) (p : Part) (r : Req) (hint : Nat) : Session × List Delivery :=
+  match r with
+  | .ping rid => (x, [(p.conn, .pingResp rid)])
+  | .join rid _ t =>
+    (x, (p.conn, Out.error rid (if t == .id x.id then ecAlreadyJoined else ecNotFound))
+          :: (if cfg.vikja then [(p.conn, Out.vikjaState x.actions)] else [])
+          ++ (if cfg.odal then [(p.conn, Out.odalState x.assets)] else []))
+  | r => memberResult cfg x p r hint
+
+theorem member_any (cfg : Cfg) {srv : Server} (h : srv.WF) {x : Session} (hx : x ∈ srv.sessions) {p : Part}
+    (hp : p ∈ x.parts) {a : Nat} (ha : a ∈ x.parts.map (·.conn)) (hne : a ≠ p.conn) (r : Req) (hint : Nat)
+    (hrc : isReceipt r = false) (hj : joinsOther x.id r = false) :
+    (memberAll cfg x p r hint).1 ∈ (stepReq cfg srv ⟨p.conn, r, hint⟩).1.sessions ∧
+    (stepReq cfg srv ⟨p.conn, r, hint⟩).2 = (memberAll cfg x p r hint).2 ∧
+    (memberAll cfg x p r hint).1.id = x.id ∧ a ∈ (memberAll cfg x p r hint).1.parts.map (·.conn) := by
+  have hl := locate_member h hx hp
+  cases r
+  case ping rid => simp [memberAll, stepReq, Server.handleReq, hx, ha]
+  case receipt => simp [isReceipt] at hrc
+  case join rid ots t =>
+    cases t with
+    | new => simp [joinsOther] at hj
+    | bogus =>
+      simp [memberAll, stepReq, Server.handleReq, Server.join, hl, Server.resolves, hx, ha]
+    | id n =>
+      have hn : n = x.id := by simpa [joinsOther] using hj
+      subst hn
+      simp [memberAll, stepReq, Server.handleReq, Server.join, hl, hx, ha]
+  all_goals
+    exact member_request cfg h hx hp ha hne _ hint (by intro _ _ _ e; cases e) (by intro _ _ _ _ e; cases e) (by intro _ e; cases e)
+
+
+/-- a request that concerns the session does the same to it, and shows its members the same, in both servers -/
+theorem insider_step (cfg : Cfg) {xid a : Nat} {s1 s2 : Server} (hA : Agree xid a s1 s2) (e : RE)
+    (hin : insider s1 xid e = true) (hrc : isReceipt e.r = false) (hea : e.c ≠ a)
+    (hj : (members s1 xid).contains e.c = true → joinsOther xid e.r = false) :
+    seen (stepReq cfg s1 e).1 xid (stepReq cfg s1 e).2 = seen (stepReq cfg s2 e).1 xid (stepReq cfg s2 e).2 ∧
+    Agree xid a (stepReq cfg s1 e).1 (stepReq cfg s2 e).1 := by
+  obtain ⟨x, hx1, hx2, hid, hax⟩ := hA.same
+  subst hid
+  have hw1 := stepReq_WF cfg hA.wf1 e
+  have hw2 := stepReq_WF cfg hA.wf2 e
+  have hm1 := members_of_mem hA.wf1 hx1
+  by_cases hc : e.c ∈ x.parts.map (·.conn)
+  · -- a member of the session
+    obtain ⟨p, hp, hpc⟩ := List.mem_map.mp hc
+    have hj' : joinsOther x.id e.r = false := hj (by rw [hm1]; simpa using hc)
+    have hne : a ≠ p.conn := by rw [hpc]; exact fun h => hea h.symm
+    have he : e = ⟨p.conn, e.r, e.hint⟩ := by cases e; simp at hpc ⊢; exact hpc.symm
+    have r1 := member_any cfg hA.wf1 hx1 hp hax hne e.r e.hint hrc hj'
+    have r2 := member_any cfg hA.wf2 hx2 hp hax hne e.r e.hint hrc hj'
+    rw [← he] at r1 r2
+    have hs1 := members_of_mem hw1 r1.1
+    have hs2 := members_of_mem hw2 r2.1
+    rw [r1.2.2.1] at hs1 hs2
+    refine ⟨?_, hw1, hw2, _, r1.1, r2.1, r1.2.2.1, r1.2.2.2⟩
+    unfold seen
+    rw [hs1, hs2, r1.2.1, r2.2.1]
+  · -- somebody else asking to join it
+    have hjoin : isJoinTo x.id e.r = true := by
+      unfold insider at hin
+      have : (members s1 x.id).contains e.c = false := by rw [hm1]; simpa using hc
+      rw [this] at hin
+      simpa using hin
+    obtain ⟨c, r, hint⟩ := e
+    cases r <;> simp [isJoinTo] at hjoin
+    case join rid ots t =>
+      cases t <;> simp at hjoin
+      case id n =>
+        subst hjoin
+        have r1 := join_x cfg hA.wf1 hx1 c rid ots hint hc
+        have r2 := join_x cfg hA.wf2 hx2 c rid ots hint hc
+        refine ⟨by rw [r1.2, r2.2], hw1, hw2, _, r1.1, r2.1, rfl, ?_⟩
+        simp only [Session.addPart, List.map_append, List.mem_append]
+        exact Or.inl hax
+
+/-- **C03, noninterference at the level of handled requests.**  From two servers that hold the same session `xid` (for
+    instance the same server), what the members of that session are sent along any admissible history is what they are
+    sent along the history with every request that does not concern the session removed. -/
+theorem C03_noninterference (cfg : Cfg) (xid a : Nat) : ∀ (es : List RE) (s1 s2 : Server), Agree xid a s1 s2 →
+    Admissible cfg xid a s1 es → obs cfg xid s1 es = obs cfg xid s2 (proj cfg xid s1 es) := by
+  intro es
+  induction es with
+  | nil => intro s1 s2 _ _; rfl
+  | cons e es ih =>
+    intro s1 s2 hA hadm
+    obtain ⟨hrc, hea, hj, hrest⟩ := hadm
+    simp only [obs, proj]
+    by_cases hin : insider s1 xid e = true
+    · simp only [hin, if_true, obs]
+      have r := insider_step cfg hA e hin hrc hea hj
+      rw [r.1, ih _ _ r.2 hrest]
+    · have hin' : insider s1 xid e = false := by simpa using hin
+      simp only [hin', Bool.false_eq_true, if_false]
+      obtain ⟨x, hx1, hx2, hid, hax⟩ := hA.same
+      subst hid
+      have r := outsider_step cfg hA.wf1 hx1 e hin'
+      rw [r.2, List.nil_append]
+      exact ih _ _ ⟨stepReq_WF cfg hA.wf1 e, hA.wf2, x, r.1, hx2, rfl, hax⟩ hrest
+
+/-- the same, from one server: removing the requests that do not concern a session changes nothing of what its
+    members are sent -/
+theorem C03_noninterference_self (cfg : Cfg) (srv : Server) (hw : srv.WF) (x : Session) (hx : x ∈ srv.sessions) (a : Nat)
+    (ha : a ∈ x.parts.map (·.conn)) (es : List RE) (hadm : Admissible cfg x.id a srv es) :
+    obs cfg x.id srv es = obs cfg x.id srv (proj cfg x.id srv es) :=
+  C03_noninterference cfg x.id a es srv srv ⟨hw, hw, x, hx, hx, rfl, ha⟩ hadm
+
+
+/-! ### the hypotheses are satisfiable and the projection does remove something -/
+
+/-- connections 1 and 2 share session 1 (1 only listens); connection 3 creates a session of its own and works in it -/
+def exampleStart : Server :=
+  (stepReq {} (stepReq {} {} ⟨1, .join 1 0 .new, 0⟩).1 ⟨2, .join 2 0 (.id 1), 0⟩).1
+
+def exampleHistory : List RE :=
+  [⟨3, .join 3 0 .new, 0⟩, ⟨3, .entityAdd 4 0 false 0 none, 0⟩, ⟨2, .entityAdd 5 0 false 0 none, 0⟩,
+   ⟨3, .custom 0 [] [1, 2], 0⟩, ⟨2, .custom 0 [] [7], 0⟩, ⟨4, .join 6 0 (.id 1), 0⟩, ⟨3, .ping 9, 0⟩]
+
+example : (proj {} 1 exampleStart exampleHistory).map (·.c) = [2, 2, 4] := by decide +kernel
+
+example : (obs {} 1 exampleStart exampleHistory).length = 9 ∧
+    obs {} 1 exampleStart exampleHistory = obs {} 1 exampleStart (proj {} 1 exampleStart exampleHistory) := by decide +kernel
+
+example : Admissible {} 1 1 exampleStart exampleHistory := by
+  simp only [exampleHistory, Admissible]
+  decide +kernel
 
 end Hagall.Props.C03Trace
